@@ -44,8 +44,7 @@ MIN_DISTINCT = {'quick': 5000, 'thorough': 50000}
 LEVEL_TEXT = ('Exploration with a trait-derived three-valued oracle, exhaustive over the bounded MBR family, the 64 single '
               'feature bits, the footer perturbations and the registered checks x exception pool; sampled elsewhere.')
 LEVEL_NOTE = ('Trusted: the generators and the trait->verdict table (vlib/imagegen.py, this file). Known findings F1 '
-              '(text descriptors beyond the first chunk) and K11 (bad KDMV header through the wrapper with a short first '
-              'read) are excused only on inputs matching their predicates.')
+              '(text descriptors beyond the first chunk) is excused only on inputs matching its predicate.')
 TECHNIQUE = 'reference-model monitor (trait-derived 3-valued verdict) + failpoints in every registered safety check'
 
 GOOD_TYPES = ['monolithicSparse', 'streamOptimized', 'MONOLITHICSPARSE', 'StreamOptimized', 'monolithicsparse']
@@ -162,8 +161,6 @@ def eval_image(ctx, case):
             kn = None
             if text_f1 and cuts and cuts[0] < len(data):
                 kn = 'F1'
-            elif name == 'vmdk' and known.k11_bad_header_kdmv(data, cuts[0] if cuts else None):
-                kn = 'K11'
             judge(ctx, dict(case, failing=[klass, cuts]), 'wrapper', verdict, resp, outcome, kn)
         elif verdict == 'accept' and not text_f1:
             ctx.clause('must-accept')
@@ -503,6 +500,14 @@ def run(ctx):
         body = b'=\ncreateType="streamOptimized"\nRW 1 SPARSE "x"\n'
         raw = (b'KDMV' + b'\x01\x01\x01\x01' + body).ljust(2048, b'\n')
         eval_raw_kdmv(ctx, raw, [50])
+        # the same family: header failing validation (version / descriptor location), acceptable descriptor text right
+        # behind the version field, every first-read length around the 64-byte header, one or two short reads
+        for ver in (b'\x01\x01\x01\x01', b'\x00\x00\x00\x00', b'\x04\x00\x00\x00', b'\x01\x00\x00\x00'):
+            for text in (b'=\ncreateType="streamOptimized"\nRW 1 SPARSE "x"\n', b'\ncreateType="monolithicSparse"\nRW 9 SPARSE "y"\n#',
+                         b'=1\nRW 1 SPARSE "x"\ncreateType="monolithicsparse"\n'):
+                rawk = (b'KDMV' + ver + text).ljust(2048, b'\n')
+                for cuts in ([4], [8], [40], [50], [63], [64], [65], [512], [5, 50], [30, 60], [4, 63, 64], []):
+                    eval_raw_kdmv(ctx, rawk, cuts)
         eval_nocheck(ctx, {'kind': 'nocheck'})
     # ---- exhaustive MBR family
     for occ in itertools.product([0, 0x83, 0xEE], repeat=4):
@@ -571,5 +576,4 @@ def eval_raw_kdmv(ctx, raw, cuts):
     ctx.case(('k11-canary', raw, tuple(cuts)))
     if res['final'] == 'vmdk':
         outcome = sl.safety_outcome(res['wrapper'].format)
-        kn = 'K11' if known.k11_bad_header_kdmv(raw, cuts[0] if cuts else None) else None
-        judge(ctx, {'kind': 'k11-canary', 'cuts': cuts}, 'wrapper', 'reject', [], outcome, kn)
+        judge(ctx, {'kind': 'k11-canary', 'cuts': cuts}, 'wrapper', 'reject', [], outcome, None)
